@@ -13,6 +13,6 @@ CONSTANTS MaxDepth = 2
           Avoid = {}
           MaxSteps = 4
 INVARIANTS WellFormed FdsOK
-PROPERTIES FailedOpsNoChange MoveSemantics Frame AckedWriteVisible
+PROPERTIES FailedOpsNoChange MoveSemantics MoveRefusal Frame AckedWriteVisible
 CONSTRAINT DepthBound
 VIEW MCView
